@@ -105,15 +105,18 @@ def _strategy(draw):
                                "inout": "out", "centre": centre, "params": params})
     elif kind == "geom":
         build += ["[ molecule ]", f"{name} {lo} {hi}"]
-        for _ in range(draw(st.integers(1, 2))):
-            resname = draw(st.sampled_from(sorted({r["resname"] for r in mt["residues"]})))
-            r0 = draw(st.integers(1, nres))
-            r1 = draw(st.integers(r0 + 1, nres + 1))
-            shape = draw(st.sampled_from(["sphere", "cylinder", "rectangle"]))
-            inout = draw(st.sampled_from(["in", "out"]))
+        twice = draw(st.integers(0, 3)) == 0          # two restraints of one kind and flag on the same residues
+        for num in range(2 if twice else draw(st.integers(1, 2))):
+            if not (twice and num == 1):
+                resname = draw(st.sampled_from(sorted({r["resname"] for r in mt["residues"]})))
+                r0 = draw(st.integers(1, nres))
+                r1 = draw(st.integers(r0 + 1, nres + 1))
+                shape = draw(st.sampled_from(["sphere", "cylinder", "rectangle"]))
+                inout = draw(st.sampled_from(["in", "out"]))
             if inout == "in":
-                centre = [edge / 2.0] * 3
-                size = round(max(1.5, 0.4 * edge), 2)
+                # regions of one kind differ in centre and size (two of them leave their overlap)
+                centre = [round(edge / 2.0 + draw(st.sampled_from([-0.08, 0.0, 0.08])) * edge, 2) for _ in range(3)]
+                size = round(max(1.5, draw(st.sampled_from([0.4, 0.34])) * edge), 2)
                 if near_face:
                     # a region that reaches past a box face: a step across that face leaves the region
                     centre[draw(st.integers(0, 2))] = round(draw(st.sampled_from([0.2, 0.8])) * edge, 2)
